@@ -528,3 +528,31 @@ def closed_is(repo: Repo, ci, fn, *alternatives, kc=None, allow_raise=False, lev
     others = {k for k, t in outs if k != "return"}
     ok = len(rets) == 1 and rets <= want and (not others or (allow_raise and others == {"raise"}))
     return ok, sorted(outs, key=str)
+
+
+def method_effects(repo: Repo, ci, fn, valuation=None, level=1, kc=None, view=None):
+    """what a (small) method does on each of its paths, independent of how it is spelled: list of
+    {kind: return|fall|raise|unknown|loop, ret: text|None, stores: {"self.x": text}, calls: [text, ...]} with locals replaced by their bindings;
+    tests not decided by `valuation` are followed both ways"""
+    from ..pathtable import walk_paths
+    from ..pattern import norm as pn
+    v = view if view is not None else canon_fn(repo, ci, fn, level)
+
+    def tx(e):
+        e = clone_(e)
+        if kc is not None:
+            e = kc.visit(e)
+        return pn(e)
+    out = []
+    for kind, res in walk_paths(v, dict(valuation or {}), pn):
+        env = {}
+        ret = None
+        if kind == "return":
+            env = getattr(res, "_env", {})
+            ret = tx(res)
+        elif kind == "fall":
+            env = res
+        rec = {"kind": kind, "ret": ret, "stores": {k: tx(x) for k, x in env.items() if k.startswith("self.") and isinstance(x, ast.AST) and not isinstance(x, ast.FunctionDef)},
+               "calls": [tx(c) for c in env["<calls>"].elts] if "<calls>" in env else [], "why": res if isinstance(res, str) else None}
+        out.append(rec)
+    return out
